@@ -334,6 +334,21 @@ func r15_8(c *Ctx, r *Report) {
 	if fn == nil {
 		return
 	}
+	// a listing delegated to an unexported worker is followed there: its parameters stand for the month's own
+	// year and month and for the first weekday, as the delegation passes them
+	view := fn
+	roles := map[*ssa.Parameter]string{}
+	if d := pureDelegation(fn); d != nil && isLocalHelper(d.callee) && len(d.call.Common().Args) == len(d.callee.Params) {
+		callee := d.callee
+		for i, a := range d.call.Common().Args {
+			if rc, f, ok := getterField(c, a); ok && rc == ssa.Value(fn.Params[0]) && (f == "SolarMonth.year" || f == "SolarMonth.month") {
+				roles[callee.Params[i]] = f
+			} else if len(fn.Params) == 2 && a == ssa.Value(fn.Params[1]) {
+				roles[callee.Params[i]] = "start"
+			}
+		}
+		view = callee
+	}
 	hasPush := func(b *ssa.BasicBlock) bool {
 		for _, ins := range b.Instrs {
 			if call, ok := ins.(*ssa.Call); ok && call.Common().StaticCallee() != nil && call.Common().StaticCallee().String() == "(*container/list.List).PushBack" {
@@ -343,7 +358,7 @@ func r15_8(c *Ctx, r *Report) {
 		return false
 	}
 	var step *ssa.Call
-	for _, b := range fn.Blocks {
+	for _, b := range view.Blocks {
 		for _, ins := range b.Instrs {
 			if call, ok := ins.(*ssa.Call); ok && call.Common().StaticCallee() != nil && fname(call.Common().StaticCallee()) == "calendar.(*SolarWeek).Next" {
 				step = call
@@ -390,19 +405,27 @@ func r15_8(c *Ctx, r *Report) {
 			if p, ok := v.(*ssa.Parameter); ok && fr.parent == nil && len(fn.Params) == 2 && p == fn.Params[1] {
 				return int64(1), true
 			}
+			if p, ok := v.(*ssa.Parameter); ok && fr.parent == nil {
+				switch roles[p] {
+				case "SolarMonth.year":
+					return int64(2023), true
+				case "SolarMonth.month", "start":
+					return int64(1), true
+				}
+			}
 			return nil, false
 		}
 		ev := &evaluator{inline: inlineLibrary, leaf: leafA}
-		fr := &evalFrame{fn: fn, phiFrom: map[*ssa.BasicBlock]*ssa.BasicBlock{}}
+		fr := &evalFrame{fn: view, phiFrom: map[*ssa.BasicBlock]*ssa.BasicBlock{}}
 		outcome := "stop:0"
-		if !hasPush(fn.Blocks[0]) {
+		if !hasPush(view.Blocks[0]) {
 			_, outcome = ev.runFrame(fr, nil, hasPush)
 		}
 		pushed := ""
 		if len(outcome) > 5 && outcome[:5] == "stop:" {
 			var idx int
 			fmt.Sscanf(outcome[5:], "%d", &idx)
-			for _, ins := range fn.Blocks[idx].Instrs {
+			for _, ins := range view.Blocks[idx].Instrs {
 				if call, ok := ins.(*ssa.Call); ok && call.Common().StaticCallee() != nil && call.Common().StaticCallee().String() == "(*container/list.List).PushBack" && pushed == "" {
 					if o, ok := ev.eval(fr, unwrapIface(call.Common().Args[1]), 0); ok {
 						if ptr, isP := o.(absPtr); isP {
@@ -415,7 +438,7 @@ func r15_8(c *Ctx, r *Report) {
 		r.check(pushed == "week of the 1st", rule, constructA, c.fnPos(fn), fmt.Sprintf("walk from the entry knowing nothing about any week's days: %s %s; first pushed: %q (a month test on the week of the 1st fails for a January whose 1st is not the first weekday: that week starts in December)", outcome, ev.fail, pushed))
 	}
 	// (b) a listing of as many weeks as GetWeeksOfMonth reports is decided with R15.6
-	for _, b := range fn.Blocks {
+	for _, b := range view.Blocks {
 		iff, ok := b.Instrs[len(b.Instrs)-1].(*ssa.If)
 		if !ok {
 			continue
@@ -441,7 +464,7 @@ func r15_8(c *Ctx, r *Report) {
 			}
 		}
 		args := call.Common().Args
-		if init0 && step1 && len(args) == 3 && describeArg(c, fn, args[0]) == "p0.year" && describeArg(c, fn, args[1]) == "p0.month" && describeArg(c, fn, args[2]) == "p1" {
+		if init0 && step1 && len(args) == 3 && view == fn && describeArg(c, fn, args[0]) == "p0.year" && describeArg(c, fn, args[1]) == "p0.month" && describeArg(c, fn, args[2]) == "p1" {
 			r.ok(rule, constructB, c.pos(step.Pos()), "count-based listing: GetWeeksOfMonth(own year, own month, start) weeks from the week of the 1st, stepping one week at a time (the count is decided by R15.6)")
 			return
 		}
@@ -456,6 +479,16 @@ func r15_8(c *Ctx, r *Report) {
 			if x, ok := objLeaf(fr, v); ok {
 				return x, true
 			}
+			if p, ok := v.(*ssa.Parameter); ok && fr.parent == nil {
+				switch roles[p] {
+				case "SolarMonth.year":
+					return sc.y, true
+				case "SolarMonth.month":
+					return sc.m, true
+				case "start":
+					return int64(1), true
+				}
+			}
 			if rc, f, ok := getterField(c, v); ok {
 				if ofr, o := fr.origin(rc); ofr.parent == nil && o == ssa.Value(fn.Params[0]) {
 					switch f {
@@ -466,6 +499,21 @@ func r15_8(c *Ctx, r *Report) {
 					}
 				}
 				if o, ok := evalWith(fr, rc, leaf); ok {
+					if o == interface{}(absPtr{"stepped week", false}) {
+						// the stepped week's own date lies up to six days after its first day: taken in the month
+						// after the listed one (the latest it can be), so that a test on it is not taken for one
+						// on the first day
+						oy, om := sc.ny, sc.nm
+						if sc.ny == sc.y && sc.nm == sc.m {
+							oy, om = sc.y+sc.m/12, sc.m%12+1
+						}
+						switch f {
+						case "SolarWeek.year":
+							return oy, true
+						case "SolarWeek.month":
+							return om, true
+						}
+					}
 					if dt, isD := o.(absDate); isD {
 						switch f {
 						case "Solar.year":
@@ -484,7 +532,7 @@ func r15_8(c *Ctx, r *Report) {
 			return nil, false
 		}
 		ev := &evaluator{inline: inlineLibrary, leaf: leaf}
-		fr := &evalFrame{fn: fn, phiFrom: map[*ssa.BasicBlock]*ssa.BasicBlock{}}
+		fr := &evalFrame{fn: view, phiFrom: map[*ssa.BasicBlock]*ssa.BasicBlock{}}
 		_, outcome := ev.runFrame(fr, step.Block(), hasPush)
 		n++
 		want := sc.y == sc.ny && sc.m == sc.nm
